@@ -318,6 +318,31 @@ pub fn search_c20(r: &mut Rng, iters: usize) -> bool {
             return false;
         }
     }
+    // second phase (own random stream): several packages of the SAME base in one database - each directory is yielded once, none is
+    // taken for a duplicate of another version of the same package
+    let mut r2 = Rng::new(0xC20_0000 + rounds as u64);
+    let bases = ["foo", "foo-bar", "p5-Foo", "mutt-2.2.13", "x"];
+    let vers = ["1.0", "1.0nb2", "1.0nb3", "2.0", "1.0.1", "1", "20240101", "1.0rc1"];
+    for round in 0..rounds {
+        let mut spec = String::new();
+        let mut used: Vec<String> = vec![];
+        let b = r2.pick(&bases);
+        for _ in 0..2 + r2.below(4) {
+            let n = format!("{}-{}", if r2.below(5) == 0 { r2.pick(&bases) } else { b }, r2.pick(&vers));
+            if used.contains(&n) { continue; }
+            used.push(n.clone());
+            let mask = match r2.below(8) { 0 => 8, 1 => r2.below(7) as u32, _ => 7 };
+            spec.push_str(&format!("{}:{}:{};", n, mask, r2.below(20)));
+        }
+        let root = scratch(&format!("c20b-{}", round));
+        build_tree(&root, &spec);
+        let (e, a) = (expect_tree(&spec), real_tree(&root));
+        let _ = std::fs::remove_dir_all(&root);
+        if e != a {
+            witness("pkgdb_tree", &[("spec", spec.clone())], &e, &a);
+            return false;
+        }
+    }
     true
 }
 
@@ -974,5 +999,12 @@ pub fn api_apply(s: &mut pkgsrc::summary::Summary, name: &str, vals: &[String], 
                 _ => { set(s, &[]); for v in vals { push(s, v); } }
             }
         }
+    }
+}
+/// one more value for a multi-line variable through its pusher
+pub fn api_push(s: &mut pkgsrc::summary::Summary, name: &str, v: &str) {
+    match name {
+        "CONFLICTS" => s.push_conflicts(v), "DEPENDS" => s.push_depends(v), "DESCRIPTION" => s.push_description(v), "PROVIDES" => s.push_provides(v),
+        "REQUIRES" => s.push_requires(v), _ => s.push_supersedes(v),
     }
 }
